@@ -393,14 +393,23 @@ func (so *SimpleOptimizer) binaryopInts(
 		}
 		val = left.Value / right.Value
 	case token.Rem:
+		if right.Value == 0 {
+			return nil, false
+		}
 		val = left.Value % right.Value
 	case token.And:
 		val = left.Value & right.Value
 	case token.Or:
 		val = left.Value | right.Value
 	case token.Shl:
+		if right.Value < 0 {
+			return nil, false
+		}
 		val = left.Value << right.Value
 	case token.Shr:
+		if right.Value < 0 {
+			return nil, false
+		}
 		val = left.Value >> right.Value
 	case token.AndNot:
 		val = left.Value &^ right.Value
